@@ -43,7 +43,7 @@ def value_matrix(side):
 
 
 def gen_side(rng, prefix, max_dims=3, max_size=4, min_dims=1, size_bias=True, uniform=False, long_prob=0.0,
-             dup_prob=0.0):
+             dup_prob=0.0, unsorted_prob=0.0):
     k = rng.randint(min_dims, max_dims)
     pool = [s for s in (1, 1, 2, 2, 2, 3, 3, 4, 5) if s <= max_size] if size_bias else list(range(1, max_size + 1))
     sizes = [rng.choice(pool) for _ in range(k)]
@@ -66,6 +66,10 @@ def gen_side(rng, prefix, max_dims=3, max_size=4, min_dims=1, size_bias=True, un
             for _ in range(sizes[d] - 1):
                 v.append(v[-1] + rng.randint(1, 6))
             values.append(v)
+    if unsorted_prob and rng.random() < unsorted_prob:
+        # distinct reference values that are NOT increasing with the index (descending sweeps, shuffled tables)
+        d = rng.randrange(k)
+        values[d] = values[d][::-1] if rng.random() < 0.5 else rng.sample(values[d], len(values[d]))
     if dup_prob and rng.random() < dup_prob:
         # reference values that are NOT pairwise distinct (uncalibrated all-equal values, a triangular sweep ...):
         # sizes, orders and the N-D form depend on the indices only
